@@ -60,10 +60,10 @@ def decLen : Bytes → Option (Nat × Bytes)
 def encStr (s : Bytes) : Bytes := encLen s.length ++ s
 
 /-- `read_str_len`: NOTE `read_str_fixed` is `reader.read(l)`, which returns *fewer* bytes at end of input
-    instead of failing -/
+    instead of failing — but raises `OverflowError` when `l` does not fit a C `ssize_t` (`l ≥ 2^63`) -/
 def decStr (b : Bytes) : Option (Bytes × Bytes) :=
   match decLen b with
-  | some (n, r) => some (r.take n, r.drop n)
+  | some (n, r) => if n < 2 ^ 63 then some (r.take n, r.drop n) else none
   | none => none
 
 /-- strict variant used by the client-side (specification) decoders: the string must be complete -/
